@@ -18,7 +18,7 @@ EXPLANATION = __doc__
 CRATES = ("d_engine_core", "d_engine_server", "d_engine_client", "d_engine_proto")  # proto: variant list of entry_payload::Payload
 DSMH = "DefaultStateMachineHandler"
 WRITE = r"atomic::Atomic\w*::(store|swap|fetch_max|fetch_add|compare_exchange\w*)$"
-REORDER = re.compile(r"::(rev|filter|filter_map|skip|skip_while|take|take_while|step_by|sort\w*|reverse|dedup\w*|retain|truncate|split_off|drain|pop|remove|swap_remove)$")
+REORDER = re.compile(r"^(?!core::mem::).*::(rev|filter|filter_map|skip|skip_while|take|take_while|step_by|sort\w*|reverse|dedup\w*|retain|truncate|split_off|drain|pop|remove|swap_remove)$")
 
 
 def ends(adt, suffix):
